@@ -32,6 +32,17 @@ def check(run):
     if s["cases"] + s["skipped_empty_precedence_values"] != n:
         raise core.Inconclusive("assembly driver did not consume every case")
     tot["assembly"] = s
+    # ---- 1b. the body: every setter-call sequence (form fields, files, raw, JSON)
+    r = run.tlc_must_pass("ClientBody", "MC_ClientBody.cfg", workers=4, heap="4g", timeout=900, name="ClientBody")
+    cases = os.path.join(run.work, "c18_body.ndjson")
+    recs = list(core.parse_cases(r["out"]))
+    if not thorough:
+        recs = recs[::4]
+    n = core.write_cases(recs, cases)
+    s = replay(run, binary, "TestC18Body", cases, "body")
+    if s["cases"] != n:
+        raise core.Inconclusive("body driver did not consume every case")
+    tot["body"] = s
     # ---- 2. completion / timeout hand-off: design check, the original design must fail, every behaviour replayed
     r = run.tlc_must_pass("ClientCore", "MC_ClientCore.cfg", workers=4, heap="4g", timeout=900, name="ClientCore")
     m = run.tlc("ClientCore", "MC_ClientCore_orig.cfg", workers=4, heap="4g", timeout=900, name="ClientCore_orig")
@@ -59,13 +70,15 @@ def check(run):
         if s["histories"] != n:
             raise core.Inconclusive("jar driver did not finish")
         tot[name] = s
-    run.evaluations = tot["assembly"]["cases"] + tot["core"]["cases"] + tot["jar_root"]["ops"] + tot["jar_paths"]["ops"]
-    run.traces = tot["assembly"]["cases"] + tot["core"]["cases"] + tot["jar_root"]["histories"] + tot["jar_paths"]["histories"]
-    run.nontrivial = (tot["assembly"]["cases_with_both_levels_additive"] + tot["core"]["behaviours_with_cancel_after_worker_commit"]
+    run.evaluations = tot["assembly"]["cases"] + tot["body"]["cases"] + tot["core"]["cases"] + tot["jar_root"]["ops"] + tot["jar_paths"]["ops"]
+    run.traces = tot["assembly"]["cases"] + tot["body"]["cases"] + tot["core"]["cases"] + tot["jar_root"]["histories"] + tot["jar_paths"]["histories"]
+    run.nontrivial = (tot["assembly"]["cases_with_both_levels_additive"] + tot["body"]["with_files"] + tot["core"]["behaviours_with_cancel_after_worker_commit"]
                       + tot["jar_root"]["ops_with_visible_cookies"] + tot["jar_paths"]["ops_with_visible_cookies"])
     run.rule = ("(a) ClientAssemble.tla: every configuration of each pair of request components (header, query, cookie, user agent, referer, path parameter) "
                 "at client and request level over value classes {plain, needs-escaping, empty} is sent twice over an in-memory connection and compared with what "
-                "the spec says arrives; (b) ClientCore.tla: exhaustive model check of the completion/timeout hand-off over pooled objects (the original design "
+                "the spec says arrives; ClientBody.tla: every setter-call sequence of <= 2 form fields (repeated keys, values needing escaping, empty) and <= 2 files "
+                "(plain / awkward names; text, binary, boundary-like, empty contents), raw bodies and a JSON value, in every call order, sent twice: form values per key in "
+                "order, files with field name, file name and content, raw bytes and content type must arrive as configured; (b) ClientCore.tla: exhaustive model check of the completion/timeout hand-off over pooled objects (the original design "
                 "must violate WriteOwn), and every complete behaviour for 2 requests replayed on the real client through the verif gates (server handler, "
                 "after the worker's CAS, cancel): who gets which response; (c) CookieJar.tla: simulated histories of Set/Get/full HTTP exchanges with Set-Cookie "
                 "updates and deletions/ticks replayed under the virtual clock. Non-trivial = additive-at-both-levels cases + behaviours where the caller gives up "
@@ -75,4 +88,4 @@ def check(run):
     run.assumptions = ["empty strings for user agent / referer / path parameter / cookie value are outside the comparison",
                        "cookies always carry an explicit Path attribute (the default-path rule is not modelled)",
                        "on the wire same-named cookies collapse: per name presence and membership are compared; jar.Get is compared exactly",
-                       "form fields, files and bodies are not part of the assembly model yet"]
+                       "XML / CBOR bodies are covered by C11 only; conflicting setter sequences (a raw body after form fields) are not modelled"]
